@@ -14,7 +14,7 @@ Terms (tuples):
   ('yield', bb)
 Events of a path, in order:
   ('switch', bb, term, value|'else', listed_values)
-  ('call', bb, path, args, span)
+  ('call', bb, path, args, span, generic_args_text)
   ('store', bb, place_term, value_term, span)   assignment to a non-local place (through a reference / field of an argument)
   ('assert', bb, kind, span)
   ('ret', bb, term) | ('loop', bb) | ('diverge', bb) | ('unreachable', bb)
@@ -34,7 +34,7 @@ INT_RE = re.compile(r"^(-?\d+)_([iu](?:8|16|32|64|128|size))$")
 def const_term(k):
     ty = k["ty"]
     if "fn" in k:
-        return ("fn", strip_generics(k.get("rfn", k["fn"])))
+        return ("fn", strip_generics(k.get("rfn", k["fn"])), k.get("fnargs", ""))
     if "closure" in k:
         return ("closure", k["closure"], ())
     v = k.get("ev", k["v"])
@@ -283,9 +283,11 @@ class Walker:
                 args = tuple(self.operand(st, a) for a in t["args"])
                 if f[0] == "fn":
                     path = f[1]
+                    targs = f[2]
                 else:
                     path = ("indirect", f)
-                st.events.append(("call", bb, path, args, t["s"]))
+                    targs = ""
+                st.events.append(("call", bb, path, args, t["s"], targs))
                 # a callee that receives `&mut X` may change X: forget what we know below X
                 for a in args:
                     if a[0] == "ref":
